@@ -349,19 +349,25 @@ Proof.
   all: destruct (N.ltb (m_from m) k); cbn; [rewrite N.eqb_refl; reflexivity|rewrite E; exact IH].
 Qed.
 
-(* a leadership transfer is aborted when the election timeout elapses *)
+(* a leadership transfer is aborted when the election timeout elapses (outside an auto-leave joint
+   configuration; inside one the same tick also retries the proposal that leaves it, see
+   tick_heartbeat) *)
 Theorem transfer_aborted_on_timeout r r' :
   r_state r = StateLeader -> r_check_quorum r = false ->
+  c_auto_leave (t_config (r_trk r)) = false ->
   r_election_timeout r <= r_election_elapsed r + 1 ->
   r_heartbeat_elapsed r + 1 < r_heartbeat_timeout r ->
   tick_heartbeat st r = Ok r' -> r_lead_transferee r' = NoneId.
 Proof.
-  intros S CQ E HB H. unfold tick_heartbeat in H. cbv zeta in H. cbn in H. rewrite CQ in H.
+  intros S CQ AL E HB H. unfold tick_heartbeat in H. cbv zeta in H. cbn in H. rewrite CQ in H.
   apply N.leb_le in E. rewrite E in H. cbn in H. rewrite S in H. cbn in H.
   assert (Z : (r_heartbeat_timeout r <=? r_heartbeat_elapsed r + 1) = false) by (apply N.leb_gt; exact HB).
-  destruct (negb (N.eqb (r_lead_transferee r) NoneId)) eqn:X; cbn in H; rewrite S in H; cbn in H;
-    rewrite Z in H; inversion H; subst; cbn; [reflexivity|].
-  apply negb_false_iff, N.eqb_eq in X. exact X.
+  destruct (negb (N.eqb (r_lead_transferee r) NoneId)) eqn:X; cbn in H.
+  - unfold applied_to_top, applied_to in H. cbn in H. rewrite AL in H. cbn in H.
+    destruct (l_applied_to _ _ _) as [l|]; cbn [bind] in H; [|discriminate]. cbn in H.
+    rewrite S in H. cbn in H. rewrite Z in H. inversion H; subst; cbn. reflexivity.
+  - rewrite S in H. cbn in H. rewrite Z in H. inversion H; subst; cbn.
+    apply negb_false_iff, N.eqb_eq in X. exact X.
 Qed.
 
 (* ---------- C20: proposals ---------- *)
